@@ -45,6 +45,13 @@ out += ["", "%d runs of seeded changes against checks (a change seeded for C01 i
         "* `C07-skip-deadliner-add-when-indexed` (the store skips the deadliner when the duty still has an index entry): first made the driver hang (its racing calls met at a barrier inside the scripted deadliner's `Add`; now with a time-out, and every driver has a no-progress watchdog reporting `harness:stuck_no_progress`); the state it needs — a partial stored for a duty that was trimmed between the deadliner's answer and the store — is now generated by call status `T` (the scripted deadliner processes the duty's expiry inside `Add`; model: `trim; call`).",
         "* `C06-deadline-add-outside-lock` (dutydb asks the deadliner before taking its lock): new op `addrace` — the driver's deadliner expires the duty and runs a second real `Store` from inside `Add`; monitor `dutydb:expired_duty_data_served_after_race`.",
         "* `C02-justification-sig-memo` (consensus wrapper memoises verified justification signatures by signature bytes only): a change of the admission layer, invisible to the `qbft.Run` stream; C02's check now also runs C05's admission stream (the adversary model of the agreement proof is what `handle` admits).",
+        "* `C04-justification-limit-quorum` (receive-side limit `2*quorum` instead of `2*nodes` in `verifyMsgLimits`): the `qbft.Run` stream does not pass through the handler; C04's check now runs translator T-const with theorem `honest_within_wire_limits` (`Props/C04Limits.lean`) and the admission stream with the largest honest shapes (n ROUND-CHANGEs + n PREPAREs) and monitor `qbftwire:honest_message_rejected`.",
+        "* `C03-vote-filter-zero-wildcard` (a zero value acts as a wildcard in `filterMsgs`): the model admits Byzantine votes for the empty value (the theorems cover them) but the generator never sent any; Byzantine forgeries now include value 0 in PREPARE/COMMIT/PRE-PREPARE and DECIDED for 0 on top of authentic COMMITs.",
+        "* `C14-hash-any-bytes` (received values hashed by their wire bytes): values in the admission stream were always canonically encoded; multi-entry sets now travel with their map entries in non-canonical order, and C14's check runs that stream.",
+        "* `C10-gater-signed-slot` (`int64` arithmetic in the duty gater): extreme wire slots (2^63, 2^64-1, …) added to the peer sweep.",
+        "* `C01-qbft-decided-dup-commits`, `C01-parsigdb-internal-reject-leak`: component slips outside the one-validator simulator's honest paths; C01's check now also runs the consensus (`qbft`) and partial-signature-store (`parsigdb`) streams; new monitor `parsigdb:rejected_set_exchanged`.",
+        "* `C11-r1cast-dedup-wrong-round`, `C11-r2cast-dup-fallthrough` (FROST transport glue loses its de-duplication): the in-memory transport bypassed `dkg/frostp2p.go`; new stream `frostp2p` drives the real callbacks and `frostP2P.Round1/Round2` with re-delivered broadcasts (theorems `round1_one_from_each_peer`, `round2_one_from_each_peer`).",
+        "* `C13-hash-any-boundary` was first reported only as a broken correspondence (no failing input); monitor `bcast:signed_hash_collision` now gives the colliding pair.",
         ""]
 txt = "\n".join(out)
 p = '/verif/DESIGN.md'
